@@ -59,10 +59,10 @@ type Result struct {
 
 // Parser is reusable to avoid allocation in hot enumeration loops.
 type Parser struct {
-	O     Opts
-	res   Result
-	stack []Frame
-	sbuf  []byte
+	O      Opts
+	res    Result
+	stack  []Frame
+	sbuf   []byte
 	strWhy string
 }
 
